@@ -268,8 +268,11 @@ def replay_outcome(report, N, K, fault_sel, die, out, rng, which, batch, kill_me
         padd_cb.CTL = (self, ((die[0] - 1, die[1], "late") if late else (die[0] - 1, die[1])) if die else None, {})
     fakemp.Sched.__init__ = init
     try:
+        # some well-behaved items have no text form (str() raises): they must be queued all the same.  (Only
+        # items the callback accepts: the worker's error message formats the failing item.)
+        idx = [padd_cb.SilentInt(i) if it["fault"] == "ok" and rng.random() < 0.3 else i for i, it in enumerate(items)]
         outcome, res, sched = fakemp.run_parallel_add(
-            list(range(len(items))), padd_cb.cb, N, table=items, expect_params=expect_params,
+            idx, padd_cb.cb, N, table=items, expect_params=expect_params,
             cms_args=cms_args if "cms" in which else None,
             hh_args=dict(HH_ARGS) if "hh" in which else None,
             hll_args=dict(HLL_ARGS) if "hll" in which else None, assign=assign,
